@@ -3,7 +3,7 @@
    [dedup_booked_before_decision], [metrics_snapshot_after_join] are regenerated from the source on every run. *)
 From Coq Require Import NArith Bool List.
 Import ListNotations.
-From XetModel Require Import Base.Codec Gen.ShardLayout Gen.DedupFacts Model.Merkle Model.Shard Model.Dedup Proofs.PipelineProofs Proofs.ResolveProofs Proofs.BytesProofs.
+From XetModel Require Import Base.Codec Gen.ShardLayout Gen.DedupFacts Model.Merkle Model.Shard Model.Dedup Proofs.PipelineProofs Proofs.DefragProofs Proofs.ResolveProofs Proofs.BytesProofs.
 Open Scope N_scope.
 
 (* new + deduplicated = total (bytes and chunks) after every process_chunks call, for every oracle *)
@@ -38,6 +38,18 @@ Theorem C14_booked_before_decision_refuted :
   snd r = 1 /\ m_total_chunks (f_metrics (fst r)) = 2 /\ m_total_bytes (f_metrics (fst r)) = 20.
 Proof. exact booked_before_decision_refuted. Qed.
 
+(* the bytes and chunks counted as withheld from dedup by fragmentation prevention are a subset of the new bytes and chunks,
+   after every process_chunks call and for every oracle: a rejected answer adds exactly the chunk it causes to be stored
+   ([defrag_counts_whole_run] is regenerated from process_chunks on every run) *)
+Theorem C14_withheld_subset_of_new : forall bbd cf ext blocks f, DInv (f_metrics f) ->
+  DInv (f_metrics (fold_left (process_block bbd cf ext) blocks f)).
+Proof. intros bbd cf ext. exact (feed_blocks_defrag_subset bbd cf ext eq_refl). Qed.
+(* the shape the source had before the repair (the whole rejected run counted) violates it: the witness the thorough tier found *)
+Theorem C14_withheld_whole_run_refuted :
+  let r := step_with true false ex_cfg ex_fd (ex_h 1, 10) [ex_h 1; ex_h 2] (Some (2, ex_seg2)) in
+  snd r = 1 /\ m_new_bytes (f_metrics (fst r)) = 10 /\ m_defrag_bytes (f_metrics (fst r)) = 30 /\ ~ DInv (f_metrics (fst r)).
+Proof. exact defrag_whole_run_refuted. Qed.
+
 (* session metrics are the sums over its files *)
 Theorem C14_session_sums : forall rc cf s file m, s_metrics (register_completion rc cf s file m) = m_add (s_metrics s) m.
 Proof. exact register_completion_metrics. Qed.
@@ -53,3 +65,4 @@ Print Assumptions C14_conservation.
 Print Assumptions C14_total_chunks_exact.
 Print Assumptions C14_session_sums.
 Print Assumptions C14_total_bytes_exact.
+Print Assumptions C14_withheld_subset_of_new.
